@@ -451,6 +451,12 @@ class Model:
         if isinstance(o, XObj):
             if n in o.attrs:
                 return o.attrs[n]
+            f = self.repo.lookup_method(o.cls, n)
+            if f is not None:
+                # a property / method of the modelled object: as in o.n
+                if f.is_property():
+                    return self.I.call_function(f, [], self_obj=o)
+                return _Bound(self.I, f, None if f.is_static() else o)
             ce, owner = self.repo.class_attr(o.cls, n)
             if ce is not None:
                 return self.I.eval_expr(ce, {}, owner.file, owner.module)
